@@ -830,7 +830,10 @@ impl<'a> Exec<'a> {
                 (Ok(Err(ConnectionError::ParseError(a))), Ok(Err(ConnectionError::ParseError(b)))) => classify(a).1 == classify(b).1,
                 _ => false,
             };
-            let nfiles: usize = o.delivered.iter().map(|r| r.files.len()).sum();
+            // without descriptors in play nothing may carry files; with descriptors the
+            // attribution was checked above against the reference, which forgets everything
+            // pending at an error
+            let nfiles: usize = if self.cfg.max_fds_per_read > 0 { 0 } else { o.delivered.iter().map(|r| r.files.len()).sum() };
             if !same_result || got != tgot || ti != ii || nfiles != 0 {
                 return self.fail(
                     "post-error-state-leak",
@@ -846,6 +849,9 @@ impl<'a> Exec<'a> {
                 self.twin = Some(Conn::new(self.cfg.limit));
                 self.machine = Machine::new(self.cfg.limit, buffer_size());
                 self.facts |= 1 << 15;
+                // descriptors that came with the rejected input go with it
+                self.pending_fds.clear();
+                self.acc_fd_lists.clear();
             }
             self.keep(o);
             return;
@@ -922,6 +928,8 @@ impl<'a> Exec<'a> {
                 self.twin = Some(Conn::new(self.cfg.limit));
                 self.machine = Machine::new(self.cfg.limit, buffer_size());
                 self.facts |= 1 << 15;
+                self.pending_fds.clear();
+                self.acc_fd_lists.clear();
             } else {
                 self.terminal = true;
             }
